@@ -6,11 +6,37 @@ from datetime import datetime, timedelta
 from typing import Any
 
 
+def _o(o: Any) -> Any:
+    """seconds of the other operand of a comparison (IntTime, or a real datetime measured from IntTime.BASE)"""
+    if isinstance(o, IntTime):
+        return o.s
+    if isinstance(o, datetime) and IntTime.BASE is not None:
+        return int((o - IntTime.BASE).total_seconds())
+    raise TypeError(f"cannot compare IntTime with {type(o).__name__}")
+
+
 class IntTime:
     __slots__ = ("s",)
+    BASE: Any = None  # the real project start (set when the clock is switched); lets IntTime meet concrete datetimes
 
     def __init__(self, s: Any):
         self.s = s
+
+    def __rsub__(self, o: Any) -> Any:
+        if isinstance(o, datetime):
+            return ITDelta(_o(o) - self.s)
+        return NotImplemented
+
+    def weekday(self) -> Any:
+        return (IntTime.BASE.weekday() + self.s // 86400) % 7
+
+    @property
+    def hour(self) -> Any:
+        return (self.s % 86400) // 3600
+
+    @property
+    def minute(self) -> Any:
+        return (self.s % 3600) // 60
 
     def __add__(self, o: Any) -> Any:
         if isinstance(o, timedelta):
@@ -20,31 +46,31 @@ class IntTime:
     __radd__ = __add__
 
     def __sub__(self, o: Any) -> Any:
-        if isinstance(o, IntTime):
-            return ITDelta(self.s - o.s)
+        if isinstance(o, (IntTime, datetime)):
+            return ITDelta(self.s - _o(o))
         if isinstance(o, ITDelta):
             return IntTime(self.s - o.secs)
         if isinstance(o, timedelta):
             return IntTime(self.s - _secs(o))
         return NotImplemented
 
-    def __lt__(self, o: "IntTime") -> Any:
-        return self.s < o.s
+    def __lt__(self, o: Any) -> Any:
+        return self.s < _o(o)
 
-    def __le__(self, o: "IntTime") -> Any:
-        return self.s <= o.s
+    def __le__(self, o: Any) -> Any:
+        return self.s <= _o(o)
 
-    def __gt__(self, o: "IntTime") -> Any:
-        return self.s > o.s
+    def __gt__(self, o: Any) -> Any:
+        return self.s > _o(o)
 
-    def __ge__(self, o: "IntTime") -> Any:
-        return self.s >= o.s
+    def __ge__(self, o: Any) -> Any:
+        return self.s >= _o(o)
 
     def __eq__(self, o: Any) -> Any:
-        return isinstance(o, IntTime) and self.s == o.s
+        return isinstance(o, (IntTime, datetime)) and self.s == _o(o)
 
     def __ne__(self, o: Any) -> Any:
-        return not isinstance(o, IntTime) or self.s != o.s
+        return not isinstance(o, (IntTime, datetime)) or self.s != _o(o)
 
     def __hash__(self) -> int:
         return hash(self.s)
